@@ -72,6 +72,10 @@ func (w *IntegWorld) ConfigMap() map[string]interface{} {
 			} else {
 				m["task"] = s.Name
 			}
+			if tn, _ := m["task"].(string); tn == s.Name && byteSum(s.Name)%2 == 0 {
+				// a stage without a name of its own is called after its task
+				delete(m, "name")
+			}
 			if len(s.Deps) > 0 {
 				m["depends_on"] = s.Deps
 			}
@@ -128,6 +132,14 @@ func (w *IntegWorld) ConfigMap() map[string]interface{} {
 
 func scratchRoot() string {
 	return filepath.Join("/var/tmp", fmt.Sprintf("vsim-%d", os.Getpid()))
+}
+
+func byteSum(s string) int {
+	n := 0
+	for i := 0; i < len(s); i++ {
+		n += int(s[i])
+	}
+	return n
 }
 
 var exit2Once sync.Once
@@ -473,6 +485,7 @@ func GenOverrideWorld(ch *Choices, thorough bool) *IntegWorld {
 		t.Cond = true
 		w.Plans[execID("shared", "cond", 0, "")] = &ExecPlan{DurMS: ch.Choose(60, "cond-dur")}
 	}
+	namedAfterTask := false
 	npipe := 1
 	if ch.Bool(1, 3, "two-pipelines") {
 		npipe = 2
@@ -532,6 +545,20 @@ func GenOverrideWorld(ch *Choices, thorough bool) *IntegWorld {
 			}
 			g.Stages = append(g.Stages, s)
 		}
+		if p == 0 && ch.Bool(1, 4, "stage-named-after-task") {
+			// the first stage carries no name of its own (it is called after the task, "shared");
+			// stages that depend on it name it so
+			old := g.Stages[0].Name
+			g.Stages[0].Name = "shared"
+			namedAfterTask = true
+			for _, s := range g.Stages[1:] {
+				for i, d := range s.Deps {
+					if d == old {
+						s.Deps[i] = "shared"
+					}
+				}
+			}
+		}
 		if p == 0 {
 			w.Graph = g
 		} else {
@@ -539,7 +566,8 @@ func GenOverrideWorld(ch *Choices, thorough bool) *IntegWorld {
 		}
 		w.Drivers = append(w.Drivers, DriverSpec{Kind: "pipeline", Target: g.Name})
 	}
-	if ch.Bool(1, 2, "direct-run") {
+	if ch.Bool(1, 2, "direct-run") && !namedAfterTask {
+		// (a direct run is told apart from the stages by its name: not when a stage is called like the task)
 		d := DriverSpec{Kind: "task", Target: "shared"}
 		if ch.Bool(1, 2, "direct-first") {
 			w.Drivers = append([]DriverSpec{d}, w.Drivers...)
